@@ -107,6 +107,21 @@ Proof.
   symmetry. apply firstn_all2. rewrite skipn_length. lia.
 Qed.
 
+(* pack_dao puts c, ar, s, u at the ranges [dao_field_ranges] *)
+Theorem dao_pack_layout d : dao_in_range d ->
+  map (read_range (pack_dao d)) dao_field_ranges = [d_c d; d_ar d; d_s d; d_u d].
+Proof.
+  intros H. pose proof (dao_pack_extract d H) as E.
+  pose proof (f_equal d_c E) as Ec. pose proof (f_equal d_ar E) as Ea.
+  pose proof (f_equal d_s E) as Es. pose proof (f_equal d_u E) as Eu.
+  unfold extract_dao in Ec, Ea, Es, Eu. cbn [d_c d_ar d_s d_u] in Ec, Ea, Es, Eu.
+  unfold dao_field_ranges, read_range. cbn [map fst snd].
+  change (8 - 0)%nat with 8%nat. change (16 - 8)%nat with 8%nat.
+  change (24 - 16)%nat with 8%nat. change (32 - 24)%nat with 8%nat.
+  change (skipn 0 (pack_dao d)) with (pack_dao d).
+  now rewrite Ec, Ea, Es, Eu.
+Qed.
+
 (* non-vacuity: the genesis field of a test chain *)
 Example dao_pack_example :
   let d := mkDao 10000000000000000 3360000145238488200 35209330473 504120308900000000 in
@@ -120,22 +135,21 @@ Proof.
   intros H. apply chk_some in H. destruct H as [-> H]. auto.
 Qed.
 
-Record dao_step_facts (sec : N) (e : epoch_ext) (parent : dao) (number added freed interest : N) (d : dao) : Prop := {
-  dsf_primary : N; dsf_g2 : N;
-  dsf_br : ee_block_reward e number = Some dsf_primary;
-  dsf_sec : ee_secondary_block_issuance e number sec = Some dsf_g2;
-  dsf_cnz : d_c parent <> 0;
-  dsf_c : d_c d = d_c parent + dsf_primary + dsf_g2;
-  dsf_u : d_u d + freed = d_u parent + added;
-  dsf_miner_le : dsf_g2 * d_u parent / d_c parent <= dsf_g2;
-  dsf_s : d_s d + interest = d_s parent + (dsf_g2 - dsf_g2 * d_u parent / d_c parent);
-  dsf_ar : d_ar d = d_ar parent + d_ar parent * dsf_g2 / d_c parent;
-  dsf_range : dao_in_range d
-}.
+Definition dao_step_facts (sec : N) (e : epoch_ext) (parent : dao) (number added freed interest : N)
+           (d : dao) (primary g2 : N) : Prop :=
+  ee_block_reward e number = Some primary /\
+  ee_secondary_block_issuance e number sec = Some g2 /\
+  d_c parent <> 0 /\
+  d_c d = d_c parent + primary + g2 /\
+  d_u d + freed = d_u parent + added /\
+  g2 * d_u parent / d_c parent <= g2 /\
+  d_s d + interest = d_s parent + (g2 - g2 * d_u parent / d_c parent) /\
+  d_ar d = d_ar parent + d_ar parent * g2 / d_c parent /\
+  dao_in_range d /\ g2 < W64.
 
 Lemma dao_step_inv sec e parent number added freed interest d :
   dao_step sec e parent number added freed interest = Some d ->
-  dao_step_facts sec e parent number added freed interest d.
+  exists primary g2, dao_step_facts sec e parent number added freed interest d primary g2.
 Proof.
   unfold dao_step. intros H. unbind H. inversion H; subst; clear H.
   apply add64_some in E1. apply mul_div_u64_some in E2. apply sub64_some in E3.
@@ -144,8 +158,8 @@ Proof.
   apply add64_some in E10.
   destruct E1 as [-> B1], E2 as (-> & Cnz & B2), E3 as [-> B3], E4 as [-> B4], E5 as [-> B5],
     E6 as [-> B6], E7 as [-> B7], E8 as [-> B8], E9 as (-> & _ & B9), E10 as [-> B10].
-  refine {| dsf_primary := v0; dsf_g2 := v |}; cbn [d_ar d_c d_s d_u]; auto; try lia.
-  unfold dao_in_range; cbn [d_ar d_c d_s d_u]. repeat split; lia.
+  exists v0, v. unfold dao_step_facts, dao_in_range; cbn [d_ar d_c d_s d_u].
+  repeat split; auto; lia.
 Qed.
 
 (* C grows by exactly the block's primary and secondary issuance *)
@@ -155,12 +169,18 @@ Theorem dao_C_is_issuance sec e parent number added freed interest d :
     ee_block_reward e number = Some primary /\
     ee_secondary_block_issuance e number sec = Some g2 /\
     d_c d = d_c parent + primary + g2.
-Proof. intros H. destruct (dao_step_inv _ _ _ _ _ _ _ _ H). eauto. Qed.
+Proof.
+  intros H. destruct (dao_step_inv _ _ _ _ _ _ _ _ H) as (p & g & F).
+  unfold dao_step_facts in F. exists p, g. tauto.
+Qed.
 
 Theorem dao_U_step sec e parent number added freed interest d :
   dao_step sec e parent number added freed interest = Some d ->
   freed <= d_u parent + added /\ d_u d = d_u parent + added - freed.
-Proof. intros H. destruct (dao_step_inv _ _ _ _ _ _ _ _ H). lia. Qed.
+Proof.
+  intros H. destruct (dao_step_inv _ _ _ _ _ _ _ _ H) as (p & g & F).
+  unfold dao_step_facts in F. lia.
+Qed.
 
 (* the accumulated rate never decreases and grows by AR * g2 / C *)
 Theorem dao_AR_monotone sec e parent number added freed interest d :
@@ -168,7 +188,11 @@ Theorem dao_AR_monotone sec e parent number added freed interest d :
   d_ar parent <= d_ar d /\
   exists g2, ee_secondary_block_issuance e number sec = Some g2 /\
              d_ar d = d_ar parent + d_ar parent * g2 / d_c parent.
-Proof. intros H. destruct (dao_step_inv _ _ _ _ _ _ _ _ H). split; [lia|eauto]. Qed.
+Proof.
+  intros H. destruct (dao_step_inv _ _ _ _ _ _ _ _ H) as (p & g & F).
+  unfold dao_step_facts in F. destruct F as (_ & Hs & _ & _ & _ & _ & _ & Har & _).
+  split; [rewrite Har; apply N.le_add_r|]. exists g. tauto.
+Qed.
 
 (* S: the secondary issuance that is not the miner's goes to the NervosDAO
    account, withdrawn interest leaves it *)
@@ -177,7 +201,10 @@ Theorem dao_S_accounts sec e parent number added freed interest d :
   exists g2, ee_secondary_block_issuance e number sec = Some g2 /\
     g2 * d_u parent / d_c parent <= g2 /\
     d_s d + interest = d_s parent + (g2 - g2 * d_u parent / d_c parent).
-Proof. intros H. destruct (dao_step_inv _ _ _ _ _ _ _ _ H). eauto. Qed.
+Proof.
+  intros H. destruct (dao_step_inv _ _ _ _ _ _ _ _ H) as (p & g & F).
+  unfold dao_step_facts in F. exists g. tauto.
+Qed.
 
 (* the miner's share used by the reward (secondary_block_reward of the block
    itself) and the NervosDAO share add up to the secondary issuance *)
@@ -188,15 +215,12 @@ Theorem secondary_split sec e parent number added freed interest d :
     secondary_block_reward sec e number parent = Some miner /\
     miner = g2 * d_u parent / d_c parent /\ miner <= g2.
 Proof.
-  intros H Hn. pose proof (dao_step_inv _ _ _ _ _ _ _ _ H) as F. destruct F.
-  exists dsf_g2, (dsf_g2 * d_u parent / d_c parent). repeat split; auto.
-  unfold secondary_block_reward. apply N.eqb_neq in Hn. rewrite Hn, dsf_sec0. cbn [bind].
-  unfold mul_div_u64. apply N.eqb_neq in dsf_cnz0. rewrite dsf_cnz0.
-  apply chk_ok.
-  assert (G : dsf_g2 < W64).
-  { unfold dao_step in H. unbind H. rewrite dsf_sec0 in E. inversion E; subst.
-    apply add64_some in E1. lia. }
-  lia.
+  intros H Hn. destruct (dao_step_inv _ _ _ _ _ _ _ _ H) as (p & g & F).
+  unfold dao_step_facts in F. destruct F as (_ & Hs & Cnz & _ & _ & Hle & _ & _ & _ & Hg).
+  exists g, (g * d_u parent / d_c parent). repeat split; auto.
+  unfold secondary_block_reward. apply N.eqb_neq in Hn. rewrite Hn, Hs. cbn [bind].
+  unfold mul_div_u64. apply N.eqb_neq in Cnz. rewrite Cnz.
+  apply chk_ok. lia.
 Qed.
 
 (* ---- sums over cells -------------------------------------------------------------- *)
@@ -205,12 +229,12 @@ Lemma sum64_some_total {A} (f : A -> N) l acc r :
 Proof.
   revert acc. induction l as [|x l IH]; intros acc H; cbn in *.
   - inversion H. lia.
-  - unbind H. inversion E; subst. apply add64_some in E0. destruct E0 as [-> _].
+  - unbind H. apply add64_some in E. destruct E as [-> _].
     apply IH in H. lia.
 Qed.
 
 Lemma occupied_of_app a b : occupied_of (a ++ b) = occupied_of a + occupied_of b.
-Proof. induction a; cbn; [lia|]. rewrite IHa. lia. Qed.
+Proof. unfold occupied_of. induction a; cbn [app fold_right]; [lia|]. rewrite IHa. lia. Qed.
 
 Lemma freed_occupied_some txs r : freed_occupied txs = Some r -> r = occupied_of (all_inputs txs).
 Proof. unfold freed_occupied. intros H. apply (sum64_some_total c_occupied) in H. exact H. Qed.
@@ -218,14 +242,7 @@ Lemma added_occupied_some txs r : added_occupied txs = Some r -> r = occupied_of
 Proof. unfold added_occupied. intros H. apply (sum64_some_total c_occupied) in H. exact H. Qed.
 
 (* ---- U is the occupied capacity of the live set ---------------------------------- *)
-Definition ids (l : list cell) : list N := map c_id l.
-
-(* the block is applicable to the live set: cell ids are unique, every input is
-   a live cell or an output of the block, no cell is spent twice *)
-Definition block_applicable (live : live_set) (txs : list tx) : Prop :=
-  NoDup (ids (live ++ all_outputs txs)) /\
-  NoDup (ids (all_inputs txs)) /\
-  incl (all_inputs txs) (live ++ all_outputs txs).
+Notation ids := cell_ids.
 
 Lemma cell_in_true i l : cell_in i l = true <-> In i (ids l).
 Proof.
@@ -275,14 +292,14 @@ Lemma occupied_remove_cells D L :
 Proof.
   revert L. induction D as [|d D IH]; intros L NL ND Hin.
   - unfold remove_cells. cbn.
-    replace (filter (fun c => negb false) L) with L.
+    replace (filter (fun _ : cell => true) L) with L.
     2:{ clear. induction L; cbn; auto. now f_equal. }
     lia.
   - cbn [ids map] in ND. inversion ND as [|? ? Hnot ND']; subst.
     assert (E : remove_cells (d :: D) L =
                 remove_cells D (filter (fun c => negb (c_id c =? c_id d)) L)).
     { unfold remove_cells. rewrite filter_filter_and. apply filter_ext. intros c.
-      cbn [cell_in existsb]. now rewrite negb_orb. }
+      unfold cell_in. cbn [existsb]. now rewrite negb_orb, (N.eqb_sym (c_id d) (c_id c)). }
     rewrite E.
     assert (Hd : In d L) by (apply Hin; left; reflexivity).
     pose proof (occupied_remove_one d L NL Hd) as R1.
@@ -293,4 +310,135 @@ Proof.
       apply negb_true_iff. apply N.eqb_neq. intros e. apply Hnot. rewrite <- e.
       unfold ids. apply in_map. exact Hx. }
     specialize (IH' Hincl). cbn [occupied_of fold_right]. unfold occupied_of in *. lia.
+Qed.
+
+(* one block: U moves by occupied(outputs) - occupied(inputs), and stays the
+   occupied capacity of the live-cell set *)
+Theorem dao_U_tracks_occupied sec e parent number txs d live :
+  dao_field sec e parent number txs = Some d ->
+  block_applicable live txs ->
+  d_u parent = occupied_of live ->
+  d_u d = d_u parent + occupied_of (all_outputs txs) - occupied_of (all_inputs txs) /\
+  d_u d = occupied_of (apply_block live txs).
+Proof.
+  unfold dao_field. intros H (NL & ND & Hin) HU. unbind H.
+  apply freed_occupied_some in E. apply added_occupied_some in E0. subst v v0.
+  apply dao_U_step in H. destruct H as [Hle ->]. split; [reflexivity|].
+  unfold apply_block.
+  pose proof (occupied_remove_cells _ _ NL ND Hin) as R.
+  rewrite occupied_of_app in R. rewrite HU in *. lia.
+Qed.
+
+(* along a chain, from any state where U is the occupied capacity of the live
+   set (the genesis block): U of every header is the occupied capacity of the
+   live-cell set after that block *)
+Theorem dao_U_is_live_occupied sec blocks : forall d0 live0 h d live,
+  d_u d0 = occupied_of live0 ->
+  chain_applicable live0 blocks ->
+  dao_run sec d0 live0 h blocks = Some (d, live) ->
+  d_u d = occupied_of live.
+Proof.
+  induction blocks as [|[e txs] bs IH]; intros d0 live0 h d live HU HA HR; cbn in HR.
+  - inversion HR; subst. exact HU.
+  - destruct HA as [HB HA]. unbind HR.
+    pose proof (dao_U_tracks_occupied _ _ _ _ _ _ _ E HB HU) as [_ HU'].
+    exact (IH _ _ _ _ _ HU' HA HR).
+Qed.
+
+(* C of the last header = C of the first + every block's primary and secondary issuance *)
+Theorem dao_C_chain sec blocks : forall d0 live0 h d live,
+  dao_run sec d0 live0 h blocks = Some (d, live) ->
+  exists total, issuance_run sec h blocks = Some total /\ d_c d = d_c d0 + total.
+Proof.
+  induction blocks as [|[e txs] bs IH]; intros d0 live0 h d live HR; cbn in HR.
+  - inversion HR; subst. exists 0. cbn. split; [reflexivity|lia].
+  - unbind HR. unfold dao_field in E. unbind E.
+    apply dao_C_is_issuance in E. destruct E as (p & g2 & Hp & Hg & HC).
+    destruct (IH _ _ _ _ _ HR) as (rest & Hrest & HC').
+    exists (p + g2 + rest). cbn [issuance_run]. rewrite Hp, Hg. cbn [bind]. rewrite Hrest. cbn [bind].
+    split; [reflexivity|lia].
+Qed.
+
+(* AR never decreases along a chain *)
+Theorem dao_AR_chain_monotone sec blocks : forall d0 live0 h d live,
+  dao_run sec d0 live0 h blocks = Some (d, live) -> d_ar d0 <= d_ar d.
+Proof.
+  induction blocks as [|[e txs] bs IH]; intros d0 live0 h d live HR; cbn in HR.
+  - inversion HR; subst. lia.
+  - unbind HR. unfold dao_field in E. unbind E.
+    apply dao_AR_monotone in E. destruct E as [Hle _].
+    specialize (IH _ _ _ _ _ HR). lia.
+Qed.
+
+(* ---- withdrawals ------------------------------------------------------------------- *)
+Theorem withdraw_formula cap occ dar war v :
+  maximum_withdraw cap occ dar war = Some v ->
+  (cap - occ) * war / dar < W64 ->
+  occ <= cap /\ dar <> 0 /\ v = occ + (cap - occ) * war / dar.
+Proof.
+  unfold maximum_withdraw. intros H Hsmall. unbind H.
+  apply sub64_some in E. destruct E as [-> Hle].
+  destruct (N.eqb_spec dar 0) as [|Hd]; [discriminate|].
+  apply add64_some in H. destruct H as [-> _].
+  rewrite N.mod_small by exact Hsmall. repeat split; auto. lia.
+Qed.
+
+(* a withdrawal never pays less than the deposited capacity (AR is monotone) *)
+Theorem withdraw_no_loss cap occ dar war v :
+  maximum_withdraw cap occ dar war = Some v ->
+  (cap - occ) * war / dar < W64 -> dar <= war -> cap <= v.
+Proof.
+  intros H Hs Hle. destruct (withdraw_formula _ _ _ _ _ H Hs) as (Hoc & Hd & ->).
+  assert (cap - occ <= (cap - occ) * war / dar).
+  { apply N.div_le_lower_bound; [exact Hd|]. rewrite N.mul_comm. apply N.mul_le_mono_l. exact Hle. }
+  lia.
+Qed.
+
+(* the fee of a transaction: its inputs at their maximum withdraw pay for its
+   outputs and the fee — nothing else leaves or enters *)
+Theorem tx_fee_balance t f :
+  transaction_fee t = Some f ->
+  exists mw oc, tx_maximum_withdraw t = Some mw /\ tx_outputs_capacity t = Some oc /\ f + oc = mw.
+Proof.
+  unfold transaction_fee. intros H. unbind H. apply sub64_some in H. destruct H as [-> Hle].
+  exists v, v0. repeat split; auto. lia.
+Qed.
+
+(* `as u64` in calculate_maximum_withdraw truncates: when counted * ARw / ARd
+   does not fit u64 the result is not the formula (unreachable while AR stays
+   below 2 * AR_deposit and capacities below 2^63) *)
+Theorem withdraw_truncation_refuted :
+  exists cap occ dar war v,
+    maximum_withdraw cap occ dar war = Some v /\ v <> occ + (cap - occ) * war / dar.
+Proof. exists (2 ^ 63), 0, 1, 2, 0. split; [vm_compute; reflexivity|]. vm_compute. discriminate. Qed.
+
+(* non-vacuity: a deposit of 1000 CKB (occupied 102 bytes) between two
+   accumulated rates *)
+Example withdraw_example :
+  maximum_withdraw 100000000000 10200000000 10000000000000000 10000616071298000 = Some 100005532320
+  /\ (100000000000 - 10200000000) * 10000616071298000 / 10000000000000000 < W64.
+Proof. vm_compute. split; reflexivity. Qed.
+
+(* non-vacuity of the chain theorems: two blocks over a genesis with two live
+   cells; the second block spends a genesis cell and an output of the first *)
+Definition ex_epoch := mkEpochExt 0 1000 3 0 0 7 0.
+Definition ex_live0 := [mkCell 0 500000000000 6100000000 None; mkCell 1 700000000000 6900000000 None].
+Definition ex_d0 := mkDao 10000000000000000 100000000000000 1000000 13000000000.
+Definition ex_blocks : list (epoch_ext * list tx) :=
+  [ (ex_epoch, [mkTx [] [mkCell 2 0 0 None];
+                mkTx [mkCell 0 500000000000 6100000000 None]
+                     [mkCell 3 300000000000 6100000000 None; mkCell 4 199999999000 9900000000 None]]);
+    (ex_epoch, [mkTx [] [mkCell 5 1003 6100000000 None];
+                mkTx [mkCell 1 700000000000 6900000000 None; mkCell 3 300000000000 6100000000 None]
+                     [mkCell 6 999999990000 6100000000 None]]) ].
+Example dao_run_example :
+  d_u ex_d0 = occupied_of ex_live0 /\ chain_applicable ex_live0 ex_blocks /\
+  exists d live, dao_run 70000 ex_d0 ex_live0 1 ex_blocks = Some (d, live) /\ length live = 4%nat.
+Proof.
+  split; [reflexivity|]. split.
+  - cbn [chain_applicable ex_blocks]. unfold block_applicable.
+    repeat split;
+      try (cbn; repeat constructor; cbn; intuition discriminate);
+      try (intros a Ha; cbn in Ha |- *; repeat (destruct Ha as [<-|Ha]; [auto 12|]); destruct Ha).
+  - eexists _, _. split; vm_compute; reflexivity.
 Qed.
